@@ -308,6 +308,14 @@ func init() {
 					s.tp.TooManyThreshold = 1
 					s.tp.TooManyCallback = func() { calls++ }
 					s.tp.SetWorkerCount(w, false)
+					// a second thread waits for idleness while the bursts arrive (WaitAll and
+					// AddTask take the pool's locks in their own orders)
+					var waiter vsched.WaitGroup
+					waiter.Add(1)
+					vsched.GoNamed("waiter", func() {
+						s.tp.WaitAll()
+						waiter.Done()
+					})
 					for b := 0; b < 2; b++ {
 						s.stage = fmt.Sprintf("burst%d", b)
 						s.wg.Add(2)
@@ -318,6 +326,8 @@ func init() {
 					if calls < 1 || calls > 4 {
 						s.note("queue-filling callback fired %d times for 4 tasks with threshold 1", calls)
 					}
+					s.stage = "waiter"
+					waiter.Wait()
 					s.stage = "done"
 					vsched.End()
 				}
